@@ -18,3 +18,15 @@ c0 = d.index("| seeded change | breaks | needs | caught by (quick tier) |")
 d = d[:c0] + seeded
 open("/verif/DESIGN.md", "w").write(d)
 print("spliced")
+
+# optional: python -m mc.splice <thorough-log> also refreshes the I.2 table
+import sys
+if len(sys.argv) > 1:
+    tab = subprocess.run(["/venv/bin/python", "-m", "mc.table", sys.argv[1]],
+                         cwd="/verif", capture_output=True, text=True).stdout
+    d = open("/verif/DESIGN.md").read()
+    t0 = d.index("| id | quick: states / transitions / wall |")
+    t1 = d.index("`states` = cases of the enumerated space")
+    d = d[:t0] + tab.strip() + "\n\n" + d[t1:]
+    open("/verif/DESIGN.md", "w").write(d)
+    print("table refreshed")
